@@ -186,6 +186,7 @@ def work_extra(item):
 
 def run(ctx):
     out = core.Outcome()
+    out.level = "fault_enumeration"
     base = ctx.seed * 1000003 + 7
     seeds = [base + i for i in range(ctx.n(30, 1200))]
     results = core.pmap(work, seeds, chunksize=1)
